@@ -1609,6 +1609,21 @@ func (r *Raft) appendEntries(rpc RPC, a *AppendEntriesRequest) {
 			commitIndex := min(a.LeaderCommitIndex, lastNewIndex)
 			r.tryStageCommitIndex(commitIndex)
 
+			// A MonotonicLogStore only accepts entries that directly follow its
+			// last one. If clearing it failed when a snapshot was installed (that
+			// error is only logged), it still holds entries from before the
+			// snapshot and would refuse every append from here on. The snapshot
+			// covers all of them, so clear them now.
+			if lastLogIdx, _ := r.getLastLog(); lastLogIdx != 0 && lastLogIdx+1 < newEntries[0].Index {
+				if mlogs, ok := r.logs.(MonotonicLogStore); ok && mlogs.IsMonotonic() {
+					if err := r.removeOldLogs(); err != nil {
+						r.logger.Error("failed to reset logs", "error", err)
+						return
+					}
+					r.setLastLog(r.getLastSnapshot())
+				}
+			}
+
 			// Append the new entries
 			if err := r.logs.StoreLogs(newEntries); err != nil {
 				r.logger.Error("failed to append to logs", "error", err)
